@@ -33,6 +33,26 @@ func genMesh(src *choice.Source, allow uint32, st *Stats) []*model3d.Triangle {
 		allow = meshgen.AllowPlain
 	}
 	pool := meshgen.Pool(src, np, allow)
+	if allow&(1<<meshgen.FlSubnormal32) != 0 && src.Chance(1, 3) {
+		// (only for formats fed the full float32 range: 3MF keeps 32 decimal places)
+		// near twins: vertices that differ only by a component so small that it is
+		// lost when the coordinates are summed (the library's coordinate hash is such
+		// a sum) but survives as a float32 - a writer that shares vertices must still
+		// keep them apart
+		tiny := []float64{1.401298464324817e-45, -1.401298464324817e-45, 1e-30, -1e-30, 1e-38}
+		big := []float64{1, 2, 3, -2.5, 1024, 8.5e37}
+		for k := 0; k < 1+src.Intn(3); k++ {
+			v := [3]float64{big[src.Intn(len(big))], big[src.Intn(len(big))], big[src.Intn(len(big))]}
+			axis := src.Intn(3)
+			v[axis] = 0
+			w := v
+			w[axis] = tiny[src.Intn(len(tiny))]
+			u := v
+			u[axis] = tiny[src.Intn(len(tiny))]
+			pool = append(pool, model3d.NewCoord3DArray(v), model3d.NewCoord3DArray(w), model3d.NewCoord3DArray(u))
+		}
+		st.shape("near-twin vertices")
+	}
 	tris := meshgen.Triangles(src, pool, nf)
 	st.Faces += int64(nf)
 	st.NonTrivial = nf > 0
